@@ -856,8 +856,8 @@ def run(res, tier, seed, proofs_ok):
 def _run(res, tier, seed, proofs_ok):
     rng = random.Random(seed)
     quick = tier == 'quick'
-    per_tag = 56 if quick else 600
-    n_bad = 480 if quick else 5000
+    per_tag = 48 if quick else 600
+    n_bad = 420 if quick else 5000
     res.rule = ('one surface card per case: every mnemonic of the mcnp2cad '
                 'table in every form (4- and 9-entry P, K with/without sheet '
                 'selector, 5/6-entry tori, 2/4-entry X/Y/Z incl. plane, '
@@ -1142,6 +1142,7 @@ def _run(res, tier, seed, proofs_ok):
     # ---- 4c. the text-to-card path ----
     import c02_text
     c02_text.run_ties(res, rng, quick)
+    c02_text.run_link_tie(res, rng, quick)
 
     # ---- 5. the Spec against the Python references ----
     spec_ties(res, rng, meta, quick)
